@@ -23,8 +23,8 @@ From PV Require Import Base.Exn Model.ValidateSem Spec.ValidateSpec Proofs.Valid
   Proofs.ValidateBind Proofs.ValidateGate Proofs.ValidateByName Proofs.ValidateSpecLink Gen.Validate.
 Import ListNotations.
 
-Definition vrun {value : Type} (is_none : value -> bool) :=
-  run value is_none Gen.Validate.cfg Gen.Validate.is_required_rule.
+Definition vrun {value : Type} (is_none : value -> bool) (veq : value -> value -> bool) :=
+  run value is_none veq Gen.Validate.cfg Gen.Validate.is_required_rule.
 Definition vvalidate {value : Type} (is_none : value -> bool) :=
   param_validate value is_none Gen.Validate.cfg Gen.Validate.is_required_rule.
 
@@ -34,7 +34,7 @@ Theorem C12_cfg_is_reference :
 Proof. split; reflexivity. Qed.
 Print Assumptions C12_cfg_is_reference.
 
-Lemma vrun_ref : forall value is_none, @vrun value is_none = run value is_none reference_cfg reference_req_rule.
+Lemma vrun_ref : forall value is_none veq, @vrun value is_none veq = run value is_none veq reference_cfg reference_req_rule.
 Proof. intros. unfold vrun. destruct C12_cfg_is_reference as [-> ->]. reflexivity. Qed.
 Lemma vvalidate_ref : forall value is_none,
   @vvalidate value is_none = param_validate value is_none reference_cfg reference_req_rule.
@@ -61,12 +61,13 @@ Print Assumptions C12_chain_in_order.
    caller passed for that name; or, the caller passing none, the chain output on the value of its external source;
    or, the caller passing none, its Parameter default; or the signature default of that name; or - no Parameter
    declared, strict off (or the name is self) - the caller's value itself.                                     *)
-Theorem C12_gate : forall value is_none sg env dc is_async c j b,
+Theorem C12_gate_partial : forall value is_none veq sg env dc is_async c j b,
+  s_varpos sg = false ->
   self_guard value sg dc c = true ->
-  vrun is_none sg env dc is_async c = (j, FBody b) ->
+  vrun is_none veq sg env dc is_async c = (j, FBody b) ->
   forall n v, In (n, v) b -> origin value is_none sg dc c n v.
-Proof. intros value is_none. rewrite vrun_ref. apply gate. Qed.
-Print Assumptions C12_gate.
+Proof. intros. rewrite vrun_ref in *. eapply gate; eauto. Qed.
+Print Assumptions C12_gate_partial.
 
 (* THE MODEL MEETS THE SPECIFICATION.  Declaration and call well-formed (Parameter names and signature names
    pairwise distinct; at most as many positionals as positional parameters, no name twice, self only as implicit
@@ -79,32 +80,34 @@ Print Assumptions C12_gate.
                         runs and sees exactly b, name by name.
    In particular: a value the caller supplies for a declared name reaches the body as the chain output, never as
    the signature default; an implementation that preferred defaults or dropped supplied values would not do. *)
-Theorem C12_run_meets_spec : forall value is_none sg env dc c is_async,
+Theorem C12_run_meets_spec : forall value is_none veq sg env dc c is_async,
+  s_varpos sg = false ->
   decl_wellformed value sg dc = true -> call_wellformed value sg c = true ->
   declared value dc self_name = false ->
   (forall p, In p (d_params dc) -> derives (p_exc p) ParameterExceptionC = true) ->
   snd (flask_m value env dc) = WOk tt ->
   match spec_outcome value is_none sg dc c with
-  | DRaise rs => exists e pn, snd (vrun is_none sg env dc is_async c) = FRaise e pn /\ raise_allowed e pn rs
-  | DPythonRejects => snd (vrun is_none sg env dc is_async c) = FRaise TypeErrorC None
+  | DRaise rs => exists e pn, snd (vrun is_none veq sg env dc is_async c) = FRaise e pn /\ raise_allowed e pn rs
+  | DPythonRejects => snd (vrun is_none veq sg env dc is_async c) = FRaise TypeErrorC None
   | DBody b => names_fit value sg dc c = true ->
-               exists b', snd (vrun is_none sg env dc is_async c) = FBody b' /\ deq b' b
+               exists b', snd (vrun is_none veq sg env dc is_async c) = FBody b' /\ deq b' b
   end.
-Proof. intros value is_none. rewrite vrun_ref. intros. now apply run_meets_spec. Qed.
+Proof. intros. rewrite vrun_ref in *. now apply run_meets_spec. Qed.
 Print Assumptions C12_run_meets_spec.
 
 (* the same for one supplied value, without the well-formedness of the rest: what the caller passes for n reaches
    the body through the chain of the Parameter declared for n, and unchanged if none is declared *)
-Theorem C12_supplied_reaches_body : forall value is_none sg env dc is_async c j b n w,
+Theorem C12_supplied_reaches_body : forall value is_none veq sg env dc is_async c j b n w,
+  s_varpos sg = false ->
   d_ignore_input dc = false -> List.length (c_args c) <= List.length (pos_params value sg) ->
   NoDup (keys (named_assignment value sg c)) -> self_guard value sg dc c = true ->
-  vrun is_none sg env dc is_async c = (j, FBody b) -> In (n, w) (named_assignment value sg c) ->
+  vrun is_none veq sg env dc is_async c = (j, FBody b) -> In (n, w) (named_assignment value sg c) ->
   match lookup_param value dc n with
   | Some p => forall v, spec_param value is_none p w = VPass v ->
               (d_mode dc <> KWARGS_WITHOUT_NONE \/ is_none v = false) -> dget n b = Some v
   | None => (d_mode dc <> KWARGS_WITHOUT_NONE \/ is_none w = false) -> dget n b = Some w
   end.
-Proof. intros value is_none. rewrite vrun_ref. apply supplied_reaches_body. Qed.
+Proof. intros. rewrite vrun_ref in *. eapply supplied_reaches_body; eauto. Qed.
 Print Assumptions C12_supplied_reaches_body.
 
 (* ---- a small universe for witnesses: values are numbers, 0 plays None ---- *)
@@ -115,7 +118,7 @@ Definition mkparam (n : name) (chain : list (vfun nat)) (required : bool) (defau
   {| p_name := n; p_convert := None; p_chain := chain; p_required := required; p_default := default;
      p_exc := ParameterExceptionC; p_ext := None; p_flask_json := false |}.
 Definition mksig (ps : list (name * option nat)) : signature nat :=
-  {| s_params := map (fun nd => {| sp_name := fst nd; sp_kwonly := false; sp_default := snd nd |}) ps; s_varkw := false |}.
+  {| s_params := map (fun nd => {| sp_name := fst nd; sp_kwonly := false; sp_default := snd nd |}) ps; s_varkw := false; s_varpos := false |}.
 Definition no_env : wenv := {| w_flask_installed := false; w_request := None |}.
 
 (* former finding C12-K1 (fixed by d10af45): def f(b=5, a=0), Parameter a / at most 1, strict=False, return_as=ARGS;
@@ -128,16 +131,16 @@ Definition k1_call : call nat := {| c_args := []; c_kwargs := [(1, 1); (3, 2)] |
 
 Example C12_K1_witness_fixed :
   self_guard nat k1_sig k1_deco k1_call = true /\ names_fit nat k1_sig k1_deco k1_call = false /\
-  vrun nnone k1_sig no_env k1_deco false k1_call = ([(1, 0, 1)], FRaise TypeErrorC None).
+  vrun nnone Nat.eqb k1_sig no_env k1_deco false k1_call = ([(1, 0, 1)], FRaise TypeErrorC None).
 Proof. repeat split. Qed.
 
 (* outside self_guard (open finding C12-K3): @validate(strict=False) def g(a=1, **kw); g(self=5) runs the body with
    a=5 - the value passed under the undeclared name self is bound to the first parameter (names: self=0, a=1) *)
 Theorem C12_gate_self_refuted : exists sg env dc is_async c j b n v,
   self_guard nat sg dc c = false /\
-  vrun nnone sg env dc is_async c = (j, FBody b) /\ In (n, v) b /\ ~ origin nat nnone sg dc c n v.
+  vrun nnone Nat.eqb sg env dc is_async c = (j, FBody b) /\ In (n, v) b /\ ~ origin nat nnone sg dc c n v.
 Proof.
-  exists {| s_params := [{| sp_name := 1; sp_kwonly := false; sp_default := Some 1 |}]; s_varkw := true |}, no_env,
+  exists {| s_params := [{| sp_name := 1; sp_kwonly := false; sp_default := Some 1 |}]; s_varkw := true; s_varpos := false |}, no_env,
     {| d_params := []; d_mode := KWARGS_WITH_NONE; d_strict := false; d_ignore_input := false |}, false,
     {| c_args := []; c_kwargs := [(0, 5)] |}, [], [(1, 5)], 1, 5.
   repeat split; try reflexivity.
@@ -155,11 +158,11 @@ Print Assumptions C12_gate_self_refuted.
    the body with a=3; the default never arrives under its own name *)
 Theorem C12_default_cascade_self_refuted : exists sg env dc is_async c j b p d,
   self_guard nat sg dc c = false /\ NoDup (map (@p_name nat) (d_params dc)) /\
-  vrun nnone sg env dc is_async c = (j, FBody b) /\
+  vrun nnone Nat.eqb sg env dc is_async c = (j, FBody b) /\
   In p (d_params dc) /\ (forall w, ~ caller_gives nat sg dc c (p_name p) w) /\ no_external nat p /\
   p_default p = Some d /\ d_mode dc <> KWARGS_WITHOUT_NONE /\ dget (p_name p) b <> Some d.
 Proof.
-  exists {| s_params := [{| sp_name := 1; sp_kwonly := false; sp_default := Some 1 |}]; s_varkw := true |}, no_env,
+  exists {| s_params := [{| sp_name := 1; sp_kwonly := false; sp_default := Some 1 |}]; s_varkw := true; s_varpos := false |}, no_env,
     {| d_params := [mkparam 0 [] false (Some 3)]; d_mode := KWARGS_WITH_NONE; d_strict := true; d_ignore_input := false |},
     false, {| c_args := []; c_kwargs := [] |}, [], [(1, 3)], (mkparam 0 [] false (Some 3)), 3.
   repeat split; try reflexivity; try discriminate.
@@ -169,13 +172,49 @@ Proof.
 Qed.
 Print Assumptions C12_default_cascade_self_refuted.
 
+(* FUNCTIONS WITH *args (s_varpos sg = true; the model covers the zip branch of the positional loop).  C12_gate_partial and
+   C12_strict_partial carry s_varpos sg = false; for *args functions the full statements are FALSE on the current source
+   (open findings C12-K4, C12-K5):
+   - @validate(Parameter a / at most 5, Parameter b / at most 5, strict=True) on a function f whose only parameter is star-args: f(1, 2, 99) runs the body with
+     (1, 2): the third positional has no Parameter, yet no TooManyArguments; zip drops it silently;
+   - @validate(Parameter x, Parameter y) on g with parameter x followed by star-args: g(1, 1, 2) runs the body with x=1 and
+     the tuple (2,): the values for the tuple are found by filtering ALL positionals by == against the validated named ones, so the second positional (equal
+     to x) disappears and y validates the third one. *)
+Definition va_sig (named : list name) : signature nat :=
+  {| s_params := map (fun n => {| sp_name := n; sp_kwonly := false; sp_default := None |}) named; s_varkw := false; s_varpos := true |}.
+
+Theorem C12_strict_varargs_refuted : exists sg env dc is_async c j b star,
+  s_varpos sg = true /\ d_strict dc = true /\ List.length (d_params dc) = 2 /\ c_args c = [1; 2; 99] /\ c_kwargs c = [] /\
+  vrun nnone Nat.eqb sg env dc is_async c = (j, FBodyStar b star) /\ star = [1; 2].
+Proof.
+  exists (va_sig []), no_env,
+    {| d_params := [mkparam 1 [at_most 5] true None; mkparam 2 [at_most 5] true None]; d_mode := ARGS; d_strict := true;
+       d_ignore_input := false |}, false, {| c_args := [1; 2; 99]; c_kwargs := [] |}, [(1, 0, 1); (2, 0, 2)], [], [1; 2].
+  repeat split.
+Qed.
+Print Assumptions C12_strict_varargs_refuted.
+
+Theorem C12_gate_varargs_refuted : exists sg env dc is_async c j b star,
+  s_varpos sg = true /\ c_args c = [1; 1; 2] /\ c_kwargs c = [] /\
+  vrun nnone Nat.eqb sg env dc is_async c = (j, FBodyStar b star) /\ b = [(1, 1)] /\ star = [2] /\
+  (* the Parameter y (name 2) was fed with the third positional, the second one reached nobody *)
+  j = [(1, 0, 1); (2, 0, 2)].
+Proof.
+  exists (va_sig [1]), no_env,
+    {| d_params := [mkparam 1 [at_most 5] true None; mkparam 2 [at_most 5] true None]; d_mode := ARGS; d_strict := true;
+       d_ignore_input := false |}, false, {| c_args := [1; 1; 2]; c_kwargs := [] |}, [(1, 0, 1); (2, 0, 2)], [(1, 1)], [2].
+  repeat split.
+Qed.
+Print Assumptions C12_gate_varargs_refuted.
+
 (* ANY REJECTION RAISES BEFORE THE BODY.  A value the caller passes for a declared Parameter that does not pass
    the chain (rejected at any position, or a foreign exception in a validator): the body does not run *)
-Theorem C12_rejection_no_body : forall value is_none sg env dc is_async c n w p,
+Theorem C12_rejection_no_body : forall value is_none veq sg env dc is_async c n w p,
+  s_varpos sg = false ->
   caller_gives value sg dc c n w -> lookup_param value dc n = Some p ->
   (forall v, spec_param value is_none p w <> VPass v) ->
-  exists e pn, snd (vrun is_none sg env dc is_async c) = FRaise e pn.
-Proof. intros value is_none. rewrite vrun_ref. apply rejection_no_body. Qed.
+  exists e pn, snd (vrun is_none veq sg env dc is_async c) = FRaise e pn.
+Proof. intros. rewrite vrun_ref in *. eapply rejection_no_body; eauto. Qed.
 Print Assumptions C12_rejection_no_body.
 
 (* the first rejection wins.  `arrival` lists the arguments in the order in which _wrapper_content meets them
@@ -183,26 +222,28 @@ Print Assumptions C12_rejection_no_body.
    exactly its exception leaves - class exception_type, attribute parameter_name = the name - the body does not
    run, and the validators called are those of the arguments in front plus the rejecting chain up to the
    rejecting validator: nothing behind the rejection is looked at *)
-Theorem C12_first_rejection_no_body : forall value is_none sg env dc is_async c pre x post p,
+Theorem C12_first_rejection_no_body : forall value is_none veq sg env dc is_async c pre x post p,
+  s_varpos sg = false ->
   arrival value sg dc c = Some (pre ++ x :: post) ->
   Forall (fun y => exists v, snd (snd (titem value is_none dc y)) = WOk v) pre ->
   lookup_param value dc (fst (snd x)) = Some p ->
   spec_param value is_none p (snd (snd x)) = VReject ->
-  vrun is_none sg env dc is_async c =
+  vrun is_none veq sg env dc is_async c =
   (flat_map (fun y => fst (snd (titem value is_none dc y))) pre ++ spec_journal value is_none p (snd (snd x)),
    FRaise (p_exc p) (Some (fst (snd x)))).
-Proof. intros value is_none. rewrite vrun_ref. apply first_rejection. Qed.
+Proof. intros. rewrite vrun_ref in *. eapply first_rejection; eauto. Qed.
 Print Assumptions C12_first_rejection_no_body.
 
 (* the same for ANY failing step (rejection, foreign exception of a validator or of the conversion, undeclared
    argument under strict): everything in front passed, the step of x raises (e, pn) - exactly that leaves *)
-Theorem C12_first_failure_wins : forall value is_none sg env dc is_async c pre x post e pn,
+Theorem C12_first_failure_wins : forall value is_none veq sg env dc is_async c pre x post e pn,
+  s_varpos sg = false ->
   arrival value sg dc c = Some (pre ++ x :: post) ->
   Forall (fun y => exists v, snd (snd (titem value is_none dc y)) = WOk v) pre ->
   snd (snd (titem value is_none dc x)) = WRaise e pn ->
-  vrun is_none sg env dc is_async c =
+  vrun is_none veq sg env dc is_async c =
   (flat_map (fun y => fst (snd (titem value is_none dc y))) pre ++ fst (snd (titem value is_none dc x)), FRaise e pn).
-Proof. intros value is_none. rewrite vrun_ref. apply first_failure_arrival. Qed.
+Proof. intros. rewrite vrun_ref in *. eapply first_failure_arrival; eauto. Qed.
 Print Assumptions C12_first_failure_wins.
 
 (* ... and in the unused-parameter loop: every argument passed, the Parameters without argument in front of p (in
@@ -210,16 +251,17 @@ Print Assumptions C12_first_failure_wins.
    u_m p = (C12_unused_step_outcome) the chain on the value of its external source if it has one (a raising source:
    that exception), else: required -> exception_type with the parameter name; Parameter default; signature
    default; ValidateException *)
-Theorem C12_first_failure_unused : forall value is_none sg env dc is_async c xs pre p post e pn,
+Theorem C12_first_failure_unused : forall value is_none veq sg env dc is_async c xs pre p post e pn,
+  s_varpos sg = false ->
   arrival value sg dc c = Some xs ->
   Forall (fun y => exists v, snd (snd (titem value is_none dc y)) = WOk v) xs ->
   unused_params value dc (useds value dc (map snd xs)) = pre ++ p :: post ->
   Forall (fun q => exists v, snd (u_m value is_none sg q) = WOk v) pre ->
   snd (u_m value is_none sg p) = WRaise e pn ->
-  vrun is_none sg env dc is_async c =
+  vrun is_none veq sg env dc is_async c =
   (flat_map (fun y => fst (snd (titem value is_none dc y))) xs ++ flat_map (fun q => fst (u_m value is_none sg q)) pre
      ++ fst (u_m value is_none sg p), FRaise e pn).
-Proof. intros value is_none. rewrite vrun_ref. apply first_failure_unused. Qed.
+Proof. intros. rewrite vrun_ref in *. eapply first_failure_unused; eauto. Qed.
 Print Assumptions C12_first_failure_unused.
 
 Theorem C12_unused_step_outcome : forall value is_none sg (p : param value),
@@ -243,27 +285,29 @@ Print Assumptions C12_unused_step_outcome.
 
 (* an exception that carries a parameter name comes from the Parameter of that name: it rejected the value the
    caller / its external source gave, or it is required and got no value *)
-Theorem C12_exception_names_parameter : forall value is_none sg env dc is_async c e n,
-  snd (vrun is_none sg env dc is_async c) = FRaise e (Some n) ->
+Theorem C12_exception_names_parameter : forall value is_none veq sg env dc is_async c e n,
+  s_varpos sg = false ->
+  snd (vrun is_none veq sg env dc is_async c) = FRaise e (Some n) ->
   exists p, In p (d_params dc) /\ p_name p = n /\ e = p_exc p /\ rejected_here value is_none sg dc c p.
-Proof. intros value is_none. rewrite vrun_ref. apply raise_names_parameter. Qed.
+Proof. intros. rewrite vrun_ref in *. eapply raise_names_parameter; eauto. Qed.
 Print Assumptions C12_exception_names_parameter.
 
 (* STRICT.  An argument without declared Parameter (any keyword; any positional but self): the body does not run;
    if no declared Parameter rejects its value the exception is TooManyArguments *)
-Theorem C12_strict : forall value is_none sg env dc is_async c x xs,
+Theorem C12_strict_partial : forall value is_none veq sg env dc is_async c x xs,
+  s_varpos sg = false ->
   d_strict dc = true -> arrival value sg dc c = Some xs -> In x xs ->
   declared value dc (fst (snd x)) = false -> (fst x = false \/ fst (snd x) <> self_name) ->
-  (exists e pn, snd (vrun is_none sg env dc is_async c) = FRaise e pn) /\
+  (exists e pn, snd (vrun is_none veq sg env dc is_async c) = FRaise e pn) /\
   ((forall y p, In y xs -> lookup_param value dc (fst (snd y)) = Some p ->
                 exists v, spec_param value is_none p (snd (snd y)) = VPass v) ->
-   snd (vrun is_none sg env dc is_async c) = FRaise TooManyArgumentsC None).
+   snd (vrun is_none veq sg env dc is_async c) = FRaise TooManyArgumentsC None).
 Proof.
-  intros value is_none. rewrite vrun_ref. intros. split.
+  intros. rewrite vrun_ref in *. split.
   - eapply strict_no_body; eassumption.
   - intro. eapply strict_too_many; eassumption.
 Qed.
-Print Assumptions C12_strict.
+Print Assumptions C12_strict_partial.
 
 (* REQUIRED / NONE / MISSING.  None for a required Parameter: its exception with the name, no validator called;
    None for a non-required Parameter passes unvalidated (no validator called); a Parameter without value from
@@ -274,32 +318,33 @@ Theorem C12_required_none_missing : forall value is_none,
      vvalidate is_none p w = ([], WRaise (p_exc p) (Some (p_name p)))) /\
   (forall (p : param value) w, spec_required value p = false -> is_none w = true ->
      vvalidate is_none p w = ([], WOk w)) /\
-  (forall sg env dc is_async c p,
+  (forall veq sg env dc is_async c p, s_varpos sg = false ->
      In p (d_params dc) -> (forall w, ~ caller_gives value sg dc c (p_name p) w) -> no_external value p ->
      (spec_required value p = true \/ (p_default p = None /\ sig_default value sg (p_name p) = None)) ->
-     exists e pn, snd (vrun is_none sg env dc is_async c) = FRaise e pn).
+     exists e pn, snd (vrun is_none veq sg env dc is_async c) = FRaise e pn).
 Proof.
-  intros value is_none. rewrite vrun_ref, vvalidate_ref. repeat split.
+  intros value is_none. rewrite vvalidate_ref. repeat split.
   - apply required_none_rejected.
   - apply optional_none_passes_unvalidated.
-  - apply missing_value_no_body.
+  - intros. rewrite vrun_ref. eapply missing_value_no_body; eassumption.
 Qed.
 Print Assumptions C12_required_none_missing.
 
 (* DEFAULT CASCADE.  A declared Parameter (names pairwise distinct) without value from caller and external source,
    body reached: it is not required, and the body sees the Parameter default if there is one (KWARGS_WITHOUT_NONE:
    unless that default is None), else the signature default - a third case does not reach the body *)
-Theorem C12_default_cascade : forall value is_none sg env dc is_async c j b p,
+Theorem C12_default_cascade : forall value is_none veq sg env dc is_async c j b p,
+  s_varpos sg = false ->
   self_guard value sg dc c = true ->
   NoDup (map (@p_name value) (d_params dc)) ->
-  vrun is_none sg env dc is_async c = (j, FBody b) ->
+  vrun is_none veq sg env dc is_async c = (j, FBody b) ->
   In p (d_params dc) -> (forall w, ~ caller_gives value sg dc c (p_name p) w) -> no_external value p ->
   spec_required value p = false /\
   match p_default p with
   | Some d => (d_mode dc <> KWARGS_WITHOUT_NONE \/ is_none d = false) -> dget (p_name p) b = Some d
   | None => exists d, sig_default value sg (p_name p) = Some d /\ dget (p_name p) b = Some d
   end.
-Proof. intros value is_none. rewrite vrun_ref. apply default_cascade. Qed.
+Proof. intros. rewrite vrun_ref in *. eapply default_cascade; eauto. Qed.
 Print Assumptions C12_default_cascade.
 
 (* ---- non-vacuity: def f(a, b, c=9) with Parameter a / [at most 5; plus one], b / [plus one], c default 4 ---- *)
@@ -311,7 +356,7 @@ Definition ex_deco (m : return_as) (strict : bool) : deco nat :=
 Example C12_gate_hypotheses_satisfiable :
   let c := {| c_args := [3]; c_kwargs := [(2, 4)] |} in
   self_guard nat ex_sig (ex_deco ARGS true) c = true /\
-  vrun nnone ex_sig no_env (ex_deco ARGS true) false c =
+  vrun nnone Nat.eqb ex_sig no_env (ex_deco ARGS true) false c =
     ([(2, 0, 4); (1, 0, 3); (1, 1, 3)], FBody [(1, 4); (2, 5); (3, 4)]).
 Proof. repeat split. Qed.
 
@@ -321,19 +366,19 @@ Example C12_first_rejection_hypotheses_satisfiable :
                             mkparam 3 [] false None];
                d_mode := ARGS; d_strict := true; d_ignore_input := false |} in
   arrival nat ex_sig dc c = Some ([(false, (3, 7))] ++ (true, (1, 3)) :: [(true, (2, 1))]) /\
-  vrun nnone ex_sig no_env dc false c = ([(1, 0, 3); (1, 1, 4)], FRaise ParameterExceptionC (Some 1)).
+  vrun nnone Nat.eqb ex_sig no_env dc false c = ([(1, 0, 3); (1, 1, 4)], FRaise ParameterExceptionC (Some 1)).
 Proof. split; reflexivity. Qed.
 
 Example C12_strict_hypotheses_satisfiable :
   let c := {| c_args := [3; 1]; c_kwargs := [(8, 7)] |} in
   arrival nat ex_sig (ex_deco ARGS true) c = Some [(false, (8, 7)); (true, (1, 3)); (true, (2, 1))] /\
   declared nat (ex_deco ARGS true) 8 = false /\
-  snd (vrun nnone ex_sig no_env (ex_deco ARGS true) false c) = FRaise TooManyArgumentsC None.
+  snd (vrun nnone Nat.eqb ex_sig no_env (ex_deco ARGS true) false c) = FRaise TooManyArgumentsC None.
 Proof. repeat split. Qed.
 
 Example C12_default_cascade_hypotheses_satisfiable :
   let c := {| c_args := [3; 1]; c_kwargs := [] |} in
-  vrun nnone ex_sig no_env (ex_deco KWARGS_WITHOUT_NONE true) true c =
+  vrun nnone Nat.eqb ex_sig no_env (ex_deco KWARGS_WITHOUT_NONE true) true c =
     ([(1, 0, 3); (1, 1, 3); (2, 0, 1)], FBody [(1, 4); (2, 2); (3, 4)]) /\
   NoDup (map (@p_name nat) (d_params (ex_deco KWARGS_WITHOUT_NONE true))).
 Proof. split; [reflexivity|]. repeat constructor; cbn; intuition discriminate. Qed.
@@ -345,7 +390,7 @@ Example C12_run_meets_spec_hypotheses_satisfiable :
   snd (flask_m nat no_env dc) = WOk tt /\ names_fit nat ex_sig dc c = true /\
   (* def f(a, b, c=9); f(3, 4, 6): the supplied 6 is demanded for c, not the signature default 9 *)
   spec_outcome nat nnone ex_sig dc c = DBody [(1, 4); (2, 5); (3, 6)] /\
-  snd (vrun nnone ex_sig no_env dc false c) = FBody [(1, 4); (2, 5); (3, 6)] /\
+  snd (vrun nnone Nat.eqb ex_sig no_env dc false c) = FBody [(1, 4); (2, 5); (3, 6)] /\
   spec_outcome nat nnone ex_sig dc {| c_args := [9]; c_kwargs := [(3, 1)] |}
     = DRaise [(ParameterExceptionC, Some 1); (ValidateExceptionC, None)].
 Proof. repeat split. Qed.
@@ -356,5 +401,5 @@ Example C12_first_failure_unused_hypotheses_satisfiable :
   let c := {| c_args := [3]; c_kwargs := [] |} in
   arrival nat ex_sig dc c = Some [(true, (1, 3))] /\
   unused_params nat dc (useds nat dc (map snd [(true, (1, 3))])) = [] ++ mkparam 2 [plus_one] true None :: [mkparam 3 [] false (Some 4)] /\
-  vrun nnone ex_sig no_env dc false c = ([(1, 0, 3); (1, 1, 3)], FRaise ParameterExceptionC (Some 2)).
+  vrun nnone Nat.eqb ex_sig no_env dc false c = ([(1, 0, 3); (1, 1, 3)], FRaise ParameterExceptionC (Some 2)).
 Proof. repeat split. Qed.
